@@ -61,8 +61,15 @@ def exec_make(desc):
     content = dec_content(desc['content'])
     before = repr(content)
     fn = getattr(segno, desc['fn'])
+    kw = desc['kw']
+    if desc.get('own'):
+        # pass the library's own str objects where an argument equals one of its constants: equal
+        # arguments must give equal symbols whichever object carries the value
+        from segno import consts
+        own = {v: v for v in vars(consts).values() if isinstance(v, str)}
+        kw = {k: own.get(v, v) if isinstance(v, str) else v for k, v in kw.items()}
     try:
-        res = fn(content, **desc['kw'])
+        res = fn(content, **kw)
         syms = list(res) if desc['fn'] == 'make_sequence' else [res]
     except Exception as ex:  # noqa: BLE001
         return None, ('exc', type(ex).__name__)
@@ -256,6 +263,8 @@ _PRISTINE = {}
 
 
 def pristine(resolved):
+    if resolved.get('op') == 'make' and resolved.get('own'):
+        resolved = {k: v for k, v in resolved.items() if k != 'own'}
     key = case_hash(resolved)
     if key not in _PRISTINE:
         st_, val = in_child(run_single, resolved)
@@ -619,10 +628,14 @@ def make_desc(draw):
     if draw(st.integers(0, 9)) < 2:
         kw['boost_error'] = False
     if isinstance(content, str) and draw(st.integers(0, 9)) < 3:
-        kw['encoding'] = draw(st.sampled_from(['utf-8', 'utf-16', 'utf-32', 'utf-8-sig', 'shift_jis', 'iso-8859-15', 'utf-16-be', 'cp1252']))
+        kw['encoding'] = draw(st.sampled_from(['utf-8', 'utf-16', 'utf-32', 'utf-8-sig', 'shift_jis', 'iso-8859-15', 'utf-16-be', 'cp1252',
+                                               'iso-8859-1', 'iso-8859-1', 'latin1', 'ISO-8859-1']))
         if fn in ('make', 'make_qr') and draw(st.booleans()):
             kw['eci'] = True
-    return {'op': 'make', 'fn': fn, 'content': enc_content(content), 'kw': kw}
+    desc = {'op': 'make', 'fn': fn, 'content': enc_content(content), 'kw': kw}
+    if kw.get('encoding') in ('iso-8859-1', 'shift_jis', 'utf-8') and draw(st.booleans()):
+        desc['own'] = True  # the session passes the library's own constant object, the pristine process an equal one
+    return desc
 
 
 KINDS = ['png', 'svg', 'eps', 'pdf', 'txt', 'ans', 'pbm', 'pam', 'ppm', 'tex', 'xbm', 'xpm']
@@ -926,6 +939,29 @@ def preempt_grid(tier):
     return cases
 
 
+def reencode_grid(tier):
+    """make + re-encode with the reported version / level / mask for every content length of a few
+    content shapes: the reported level (after the automatic boost) must be one the data really has."""
+    cases = []
+    shapes = [('1234567890', {}), ('ABC DEF$%', {}), ('abcdefgh', {}), ('\u00e4bcdefg', {'encoding': 'utf-8'}),
+              ('\u00e4bcdefg', {'encoding': 'utf-8', 'eci': True}), ('abcdefgh', {'encoding': 'utf-8', 'eci': True}),
+              ('\u00e4bcdefg', {'eci': True}), ('\u70b9\u8317', {}), ('abc12345678', {'micro': False})]
+    for text, kw in shapes:
+        for n in range(1, 61 if tier == 'quick' else 400):
+            content = (text * (n // len(text) + 1))[:n]
+            for fn in ('make', 'make_qr'):
+                if fn == 'make_qr' and (n % 2 or 'micro' in kw):
+                    continue
+                kw2 = dict(kw)
+                if fn == 'make' and kw.get('eci'):
+                    kw2['micro'] = False
+                ops = [{'op': 'make', 'fn': fn, 'content': enc_content(content), 'kw': kw2},
+                       {'op': 'reencode', 'slot': 0, 'creator': 0, 'index': 0},
+                       {'op': 'make', 'fn': fn, 'content': enc_content(content), 'kw': kw2}]
+                cases.append({'what': 'history', 'ops': ops})
+    return cases
+
+
 def required_labels(tier):
     return ['preempt-once', 'history', 'history-steps', 'schedule', 'concurrent-switches', 'op-save', 'op-reencode', 'op-iter']
 
@@ -935,6 +971,8 @@ def phases(tier, seed):
     ph = [
         Enum('preempt-grid', lambda: preempt_grid(tier), exhaustive=False,
              note='single pre-emption point swept over the execution of thread 0 (grid of executed-line counts)'),
+        Enum('reencode-grid', lambda: reencode_grid(tier), exhaustive=False,
+             note='make / re-encode with the reported parameters / make again, every content length 1..60 (thorough: ..399) of 9 content shapes'),
         Custom('histories', histories_phase(tier)),
         Search('history-data', history_cases(), n // 2),
         Search('schedules', schedule_cases(), n),
